@@ -11,7 +11,7 @@ RULE = ("cases are generated literal SPELLINGS (every escape, \\u forms incl. su
         "null, or omitted; client names chosen to collide with the engine's renaming), variable-default cases, and a malformed "
         "stream of source-level spellings. A case is distinct by the hash of its line and non-trivial when the literal nests to "
         "depth >= 2 or contains an escape, a block string or an exponent (literal cases), has >= 2 arguments (forwarding cases), "
-        "or is a default-value / accepted-malformed case.")
+        "is an input-default case whose value is a list or object, or is a default-value / accepted-malformed case.")
 
 # findings still open; the repaired ones (raw-control-char, default-null-list-wrapped, block-blank-only,
 # block-escaped-triple-quote, braced-unicode-escape, block-quote-next-to-whitespace) have no cause any more:
@@ -62,6 +62,16 @@ def distribution(cases):
             inc("level3_executed")
         if "absent)" in c:
             inc("upstream_variable_absent")
+        if c.startswith("(inp "):
+            m = re.match(r'\(inp \(mode (\w+)\) \(arg "(\w+)"\) \(ty .*?\)\) (.*?) \(src ', c)
+            if m:
+                inc("inp_mode_" + m.group(1))
+                inc("inp_arg_" + m.group(2))
+                v = m.group(4 - 1)
+                for name, pat in (("empty_string", '(str "")'), ("zero", '(int "0")'), ("false", "(bool f)"), ("empty_list", "(list)"),
+                                  ("empty_object", "(obj)"), ("null", "(null)")):
+                    if pat in v:
+                        inc("inp_supplies_" + name)
     return d
 
 
@@ -84,8 +94,12 @@ def run(chk):
         "parse/marshal is represented by its string un-escaping rule (Spec.json_str strict=false); jsonparser / sjson / gjson, "
         "the planner's variable renaming and the variables mapper are outside the model (observed through level 3 only)",
         "not modelled: the GraphQL lexer/parser (the Go parser's tree is compared with the generator's tree; the lexer's "
-        "delimiting of block strings is a hypothesis go_block_lexable), inject_input_default_values.go (the schema used has no "
-        "input-field defaults), uploads, variable values inside directives",
+        "delimiting of block strings is a hypothesis go_block_lexable), uploads, variable values inside directives",
+        "input-field default injection (inject_input_default_values.go): no C15 model of the byte-level jsonparser code; its "
+        "outputs (Input.Variables after normalisation, upstream variables) are evaluated against the specification "
+        "Defaults.spec_defaults / dval_incl (supplied members unchanged, omitted members defaulted) with the schema description "
+        "the harness reads off the parsed SDL; the tree-level model of that code is C06's (Model.inject), about which "
+        "c15_supplied_field_not_defaulted is proved",
         "client variables inside literals are assumed to be self-delimiting JSON value texts (hypothesis vars_framed)",
         "harness: harness/cmd/c15 (generator, splitObject span extraction, engine with one subgraph and a recording RoundTripper)",
     ]
